@@ -1,5 +1,7 @@
 """C13 — <data> views (dynamic_array_ref) behave like a std::vector bounded by their buffer."""
 import os
+import re
+import shutil
 from concurrent.futures import ThreadPoolExecutor
 from common import *
 
@@ -512,6 +514,133 @@ def check_case(res, c, mline, iline, cfgname, chk):
     return False
 
 
+# ----------------------------------------------------------------------------
+# constant evaluation (C++20): the same call sequences inside constexpr functions; the final buffer and the returned
+# iterator offsets must be the extracted model's (static_assert per sequence, so a mismatch is a compile error that
+# names the sequence)
+# ----------------------------------------------------------------------------
+CX_TYPES = {"u8": "sbepp::uint8_t", "u16": "sbepp::uint16_t", "u32": "sbepp::uint32_t", "u64": "sbepp::uint64_t"}
+CX_OPS = {"pb", "pop", "clr", "e1", "er", "i1", "in", "if", "il", "rs", "rv", "an", "ai", "al", "as", "ar"}
+
+
+def cx_lit(ys):
+    return "{" + ", ".join("'\\x%02x'" % y for y in ys) + "}"
+
+
+def cx_call(op, k):
+    o = op[0]
+    ch = lambda x: "'\\x%02x'" % x
+    if o == "pb":
+        return "r.push_back(%s);" % ch(op[1])
+    if o == "pop":
+        return "r.pop_back();"
+    if o == "clr":
+        return "r.clear();"
+    if o == "e1":
+        return "ret[%d] = r.erase(r.begin() + %d) - r.begin();" % (k, op[1])
+    if o == "er":
+        return "ret[%d] = r.erase(r.begin() + %d, r.begin() + %d) - r.begin();" % (k, op[1], op[2])
+    if o == "i1":
+        return "ret[%d] = r.insert(r.begin() + %d, %s) - r.begin();" % (k, op[1], ch(op[2]))
+    if o == "in":
+        return "ret[%d] = r.insert(r.begin() + %d, %d, %s) - r.begin();" % (k, op[1], op[2], ch(op[3]))
+    if o == "if":
+        ys = list(op[2])
+        return "{ const char y[] = %s; ret[%d] = r.insert(r.begin() + %d, y, y + %d) - r.begin(); }" % (
+            cx_lit(ys + [0]), k, op[1], len(ys))
+    if o == "il":
+        return "ret[%d] = r.insert(r.begin() + %d, std::initializer_list<char>%s) - r.begin();" % (k, op[1], cx_lit(op[2]))
+    if o == "rs":
+        return "r.resize(%d);" % op[1]
+    if o == "rv":
+        return "r.resize(%d, %s);" % (op[1], ch(op[2]))
+    if o == "an":
+        return "r.assign(%d, %s);" % (op[1], ch(op[2]))
+    if o == "ai":
+        ys = list(op[1])
+        return "{ const char y[] = %s; r.assign(y, y + %d); }" % (cx_lit(ys + [0]), len(ys))
+    if o == "al":
+        return "r.assign(std::initializer_list<char>%s);" % cx_lit(op[1])
+    if o == "as":
+        return "{ const char y[] = %s; r.assign_string(static_cast<const char*>(y)); }" % cx_lit(list(op[1]) + [0])
+    if o == "ar":
+        return "{ const char y[] = %s; r.assign_range(std::string_view(y, %d)); }" % (cx_lit(list(op[1]) + [0]), len(op[1]))
+    raise ValueError(o)
+
+
+def cx_unit(cases, mlines):
+    """C++20 translation unit: one constexpr function and two static_asserts per sequence"""
+    out = ["// GENERATED by harness/props/c13.py: dynamic_array_ref call sequences in constant evaluation",
+           "#define SBEPP_DISABLE_ASSERTS", "#include <sbepp/sbepp.hpp>", "#include <array>", "#include <string_view>",
+           "#include <initializer_list>",
+           "template<std::size_t N, std::size_t K> struct outcome { std::array<char, N> buf; std::array<long, K> ret; };",
+           "template<std::size_t N> constexpr bool same(const std::array<char, N>& a, const std::array<char, N>& b)",
+           "{ for(std::size_t i = 0; i < N; i++) if(a[i] != b[i]) return false; return true; }",
+           "template<std::size_t K> constexpr bool same_ret(const std::array<long, K>& a, const std::array<long, K>& b)",
+           "{ for(std::size_t i = 0; i < K; i++) if(a[i] != b[i]) return false; return true; }"]
+    n = 0
+    for idx, (c, ml) in enumerate(zip(cases, mlines)):
+        mt = ml.split()
+        if mt[0] != "wf=1" or len(mt) != len(c.ops) + 1 or any(not t.startswith("ok:") for t in mt[1:]):
+            continue
+        N, K = len(c.buf), len(c.ops)
+        rets = []
+        for t in mt[1:]:
+            f = t.split(":")
+            rets.append(f[1] if f[1] != "-" else "-1")
+        final = bytes.fromhex(mt[-1].split(":")[2])
+        out.append("constexpr outcome<%d, %d> cx_%d() {" % (N, K, idx))
+        out.append("    outcome<%d, %d> o{%s, {%s}};" % (N, K, "{" + cx_lit(c.buf) + "}", ", ".join(["-1"] * K)))
+        out.append("    auto& ret = o.ret;")
+        out.append("    sbepp::detail::dynamic_array_ref<char, char, %s, sbepp::endian::%s> r{o.buf.data() + %d, o.buf.data() + %d};"
+                   % (CX_TYPES[c.T], "big" if c.be else "little", OFF, OFF + c.cap))
+        for k, op in enumerate(c.ops):
+            out.append("    " + cx_call(op, k))
+        out.append("    return o;")
+        out.append("}")
+        out.append("constexpr auto cxv_%d = cx_%d();" % (idx, idx))
+        out.append("static_assert(same(cxv_%d.buf, std::array<char, %d>{%s}), \"C13 constant evaluation: final buffer of sequence %d differs from the model: %s\");"
+                   % (idx, N, cx_lit(final), idx, " ".join(tok(o) for o in c.ops)))
+        out.append("static_assert(same_ret(cxv_%d.ret, std::array<long, %d>{%s}), \"C13 constant evaluation: returned iterators of sequence %d differ from the model: %s\");"
+                   % (idx, K, ", ".join(rets), idx, " ".join(tok(o) for o in c.ops)))
+        n += 1
+    out.append("int main() { return 0; }")
+    return "\n".join(out) + "\n", n
+
+
+def cx_cases(rng, tier):
+    """valid sequences over the constexpr-capable overloads, every length type and byte order"""
+    cases = []
+    per = 12 if tier == "quick" else 60
+    for T in ("u8", "u16", "u32", "u64"):
+        for be in (0, 1):
+            for _ in range(per):
+                capn = rng.choice((4, 8, 16))
+                n0 = rng.below(min(capn, 4) + 1)
+                xs0 = [rng.choice((A, B, 0x7A)) for _ in range(n0)]
+                ops, flags = random_seq(rng, xs0, capn, T, 3 + rng.below(6))
+                keep, xs = [], list(xs0)
+                for o in ops:
+                    if o[0] not in CX_OPS:
+                        continue
+                    ok, new, _, _ = oracle(xs, o, capn, T)
+                    if not ok:
+                        continue
+                    keep.append(o)
+                    xs = new
+                # the overloads the seeds aim at appear in every sequence
+                extra = [("as", tuple(rng.choice((A, B)) for _ in range(rng.below(capn + 1)))),
+                         ("il", 0, (A,)) if len(xs) < capn else ("pop",)]
+                for o in extra:
+                    ok, new, _, _ = oracle(xs, o, capn, T)
+                    if ok:
+                        keep.append(o)
+                        xs = new
+                if keep:
+                    cases.append(Case(T, be, capn, xs0, keep, [True] * len(keep), "constexpr"))
+    return cases
+
+
 def run(res, replay=None):
     rng = SplitMix64(res.seed)
     res.rule = ("dynamic_array_ref<char,Value,Length,E> for Length in uint8/16/32/64 x little/big endian x Value in "
@@ -599,6 +728,35 @@ def run(res, replay=None):
                     break
             else:
                 seen[idx] = il
+    # constant evaluation (C++20, g++ and clang++): static_asserts generated from the model's results
+    if not replay or replay.get("constexpr"):
+        cxs = [Case.from_json(j) for j in replay.get("cases", [])] if replay else cx_cases(SplitMix64(res.seed + 77), res.tier)
+        cxs = [c for c in cxs if all(o[0] in CX_OPS for o in c.ops)]
+        cx_m = par_lines(model.path, [c.model_line("cur", 0) for c in cxs], 16) if cxs else []
+        text, ncx = cx_unit(cxs, cx_m)
+        res.extra["constexpr_sequences"] = ncx
+        res.extra["constexpr_static_asserts"] = text.count("static_assert(")
+        td = tmpdir()
+        try:
+            pth = os.path.join(td, "c13_constexpr.cpp")
+            open(pth, "w").write(text)
+            for cxx in (("g++", "clang++") if res.tier == "thorough" or True else ("g++",)):
+                rc, out, err = sh([cxx, "-std=c++20", "-fsyntax-only", "-I", os.path.join(REPO, "sbepp", "src"),
+                                   "-fconstexpr-ops-limit=100000000" if cxx == "g++" else "-fconstexpr-steps=100000000", pth],
+                                  timeout=1200)
+                res.evaluations += ncx
+                if rc != 0:
+                    found = True
+                    bad = re.findall(r"sequence (\d+) diff", err)
+                    first = int(bad[0]) if bad else None
+                    rj = {"cases": [cxs[first].to_json()] if first is not None and first < len(cxs) else [],
+                          "constexpr": True, "compiler": cxx, "error": err[-2500:]}
+                    msg = re.findall(r"C13 constant evaluation: [^\"\n]*", err)
+                    res.violation("constexpr:%s" % (cxs[first].ops[-1][0] if first is not None and first < len(cxs) else "build"),
+                                  "in constant evaluation (%s -std=c++20) a call sequence does not produce the model's buffer / iterators: %s"
+                                  % (cxx, msg[0] if msg else err[-300:]), rj)
+        finally:
+            shutil.rmtree(td, ignore_errors=True)
     if cases:
         c = cases[len(cases) // 2]
         res.sample({"case": c.impl_line(1), "model": m_chk[len(cases) // 2][:400]})
